@@ -83,6 +83,15 @@ func (in *inst) mkcb(id int) func(k string, v interface{}) {
 	if id == 0 {
 		return nil
 	}
+	if id == 9 {
+		// a callback that re-enters the container: on the evicted key, on a new key, and a whole-container call
+		return func(k string, v interface{}) {
+			in.cbs = append(in.cbs, fmt.Sprintf("%d:%s:%s", id, k, val(v)))
+			in.c.Get(k)
+			in.c.Set("re-"+k, v, cache.NoExpiration)
+			in.c.Count()
+		}
+	}
 	return func(k string, v interface{}) { in.cbs = append(in.cbs, fmt.Sprintf("%d:%s:%s", id, k, val(v))) }
 }
 
